@@ -971,8 +971,9 @@ impl<'de, R: Read<'de>> Parser<R> {
                     }
                     b'.' => {
                         self.eat_char();
-                        let next = self.peek_or_null()?;
-                        if next == 0 || is_delimiter(next) {
+                        // End of input counts as a delimiter here; a NUL byte is
+                        // an ordinary symbol constituent, as it is outside of lists.
+                        if self.peek()?.map_or(true, is_delimiter) {
                             if !have_value {
                                 return Err(self.peek_error(ErrorCode::ExpectedSomeValue));
                             }
@@ -1035,8 +1036,9 @@ impl<'de, R: Read<'de>> Parser<R> {
                     b'.' => {
                         let start = self.read.position();
                         self.eat_char();
-                        let next = self.peek_or_null()?;
-                        if next == 0 || is_delimiter(next) {
+                        // End of input counts as a delimiter here; a NUL byte is
+                        // an ordinary symbol constituent, as it is outside of lists.
+                        if self.peek()?.map_or(true, is_delimiter) {
                             if !have_value {
                                 return Err(self.peek_error(ErrorCode::ExpectedSomeValue));
                             }
